@@ -125,11 +125,14 @@ BOUNDS = {
     "bytes": [v_bytes(bytes(range(n))) for n in (0, 1, 2, 3, 4, 5, 7, 8, 9)],
 }
 OUT_OF_DOMAIN = {
-    "i32": [v_int(v, 2) for v in (2 ** 31, -2 ** 31 - 1, 2 ** 32)],
-    "i64": [v_int(v, 4) for v in (2 ** 63, -2 ** 63 - 1)],
-    "time": [v_time(s) for s in (-61505153, -62000000, -2208988800, 4233462144, 4294967295)],
-    "u32": [(-1, None), (2 ** 32, None)],
-    "u64": [(-1, None), (2 ** 64, None)],
+    # (values that are no integers at all - a fraction, digits as text - are outside every integer domain)
+    "i32": [v_int(v, 2) for v in (2 ** 31, -2 ** 31 - 1, 2 ** 32)] + [(19.99, None), ("42", None)],
+    "i64": [v_int(v, 4) for v in (2 ** 63, -2 ** 63 - 1)] + [(19.99, None), ("42", None)],
+    # the last four lie outside 1900-01-01 .. 2172-03-15 (more than 32 bits away from either NTP era's start)
+    "time": [v_time(s) for s in (-61505153, -62000000, -2208988800, 4233462144, 4294967295, -2208988801, -3000000000)] +
+            [(v_time(s)[0], None) for s in (6380945792, 7000000000)],      # (beyond the reference's 32-bit limbs: outside by definition)
+    "u32": [(-1, None), (2 ** 32, None), (19.99, None), ("42", None)],
+    "u64": [(-1, None), (2 ** 64, None), (19.99, None), ("42", None)],
     "utf8": [("\ud800", {"t": "utf8", "cps": [0xD800]})],
     "addr": [("1.2.3.4.5", None), ("12:zz::1", None)],
 }
